@@ -909,7 +909,8 @@ impl Property for C15 {
                 }
             }
             4 => {
-                let n = t.choice(40);
+                // mostly short; sometimes longer than any internal block size (1 KiB, 4 KiB)
+                let n = if t.chance(1, 8) { *t.pick(&[1023usize, 1024, 1025, 2047, 2048, 2049, 3000, 4097]) } else { t.choice(40) };
                 let bytes: Vec<u8> = if t.chance(1, 6) {
                     t.pick(&[&b" "[..], &b"\n"[..], &b" \n\t"[..], &b"\r\n"[..], &b"\0"[..], &b"\xff"[..]]).to_vec()
                 } else {
